@@ -119,7 +119,7 @@ func (s *HistSpec) RunHistory(hist []Action, trace bool) HistResult {
 				}
 			}
 		}
-		out.Key = h.M.Key()
+		out.Key = h.M.Key() + "|" + h.W.ImplKey()
 		if s.ExtraKey != nil {
 			out.Key += "|" + s.ExtraKey(h)
 		}
